@@ -592,15 +592,18 @@ def evaluate(spec):
             body_g = [x for x in gl if x[0] not in (".cfi_lsda", ".cfi_personality", ".cfi_return_column")]
             if body_w != body_g:
                 out.fail("C12.cfi", "order-differs", f"{sname}+{p_}: expected {body_w} got {body_g}")
-            for it in w:
-                if it.d[2] is None:
-                    continue
-                match = [s_ for n_, a_, s_ in g_ if n_ == it.d[0]]
-                wsym = modsyms[it.d[2]] if it.how == "mod" else None
-                ok = bool(match) and isinstance(match[0], gtirb.Symbol) and (
-                    match[0] is wsym if wsym is not None else match[0].name in (it.d[2], it.d[2] + "_7"))
-                if not ok:
-                    out.fail("C12.cfi", "pointer-symbol", f"{sname}+{p_}: {it.d[0]} {it.d[2]}: {[getattr(x, 'name', x) for x in match]}")
+            # pointer symbols: the k-th personality / LSDA wanted at this
+            # position against the k-th one found (several procedures may
+            # start at one position)
+            for dname in (".cfi_personality", ".cfi_lsda"):
+                ws = [it for it in w if it.d[0] == dname]
+                gs = [s_ for n_, a_, s_ in g_ if n_ == dname]
+                for it, got_sym in zip(ws, gs):
+                    wsym = modsyms[it.d[2]] if it.how == "mod" else None
+                    ok = isinstance(got_sym, gtirb.Symbol) and (
+                        got_sym is wsym if wsym is not None else got_sym.name in (it.d[2], it.d[2] + "_7"))
+                    if not ok:
+                        out.fail("C12.cfi", "pointer-symbol", f"{sname}+{p_}: {dname} {it.d[2]}: {getattr(got_sym, 'name', got_sym)}")
         # alignment directives
         for it in items:
             if it.kind == "align":
